@@ -234,7 +234,13 @@ func init() {
 	h.Register("C09", func(tier string) ([]*h.Scn, []*h.Plain) {
 		var out []*h.Scn
 		add := func(p params, o verifrt.Options) {
-			out = append(out, &h.Scn{Name: p.name(), Body: body(p), Opts: o})
+			sc := &h.Scn{Name: p.name(), Body: body(p), Opts: o}
+			if o.Unbounded && len(p.Subs) > 1 {
+				sc.Split, sc.Weight = 16, 100000
+			} else if o.Bound >= 3 {
+				sc.Split, sc.Weight = 4, 5000
+			}
+			out = append(out, sc)
 		}
 		E := func(c int) script { return script{Cap: c} }
 		Eu := func(j, c int) script { return script{Unsub: j, Cap: c} }
@@ -243,14 +249,19 @@ func init() {
 		unb := verifrt.Options{Unbounded: true}
 		d := func(n int) verifrt.Options { return verifrt.Options{Bound: n, UseCache: true} }
 		thorough := tier == "thorough"
-		// unbounded micro-scenarios
+		// micro-scenarios: every interleaving (unbounded search with state caching) where that
+		// finishes within the tier's budget, three deviations otherwise
+		big := d(3)
+		if thorough {
+			big = unb
+		}
 		for _, c := range []int{0, 1, 2} {
 			add(params{Senders: 1, Per: 2, Subs: []script{E(c)}}, unb)
 			add(params{Senders: 2, Per: 1, Subs: []script{E(c)}}, unb)
-			add(params{Senders: 2, Per: 1, Subs: []script{E(c), E(0)}}, unb)
-			add(params{Senders: 2, Per: 1, Subs: []script{E(c), Eu(1, c)}}, unb)
-			add(params{Senders: 1, Per: 2, Subs: []script{E(c), L(c)}}, unb)
-			add(params{Senders: 1, Per: 2, Subs: []script{E(c), Lu(1, c)}}, unb)
+			add(params{Senders: 2, Per: 1, Subs: []script{E(c), E(0)}}, big)
+			add(params{Senders: 2, Per: 1, Subs: []script{E(c), Eu(1, c)}}, big)
+			add(params{Senders: 1, Per: 2, Subs: []script{E(c), L(c)}}, big)
+			add(params{Senders: 1, Per: 2, Subs: []script{E(c), Lu(1, c)}}, big)
 			add(params{Senders: 2, Per: 1, Subs: []script{E(0), Eu(1, c), L(c)}}, d(2))
 		}
 		add(params{Senders: 2, Per: 1, Subs: []script{E(1)}, Relay: true}, d(3))
